@@ -8,6 +8,8 @@
   * tasks never overlap: writeSlot_range, axisTask_write_range, axisTask_disjoint
   * identity copy: copyTask_same, runCopy_same(_values);  stored chunks: chunksTouched_range/_disjoint
   * n-D lifting: InProd, mem_cartesian, validate_each, ndTask_good, ndWritten_iff, runRegion_good(_values), declared_eq_blocks
+  * after the fixes (ba97b91, d416aac): accept_single/_each/_normal, prepare1_good, storeAxis_correct/_values,
+    storeRegion_correct/_values, storeAxis_declared, storeCopy_chunks_private
   * store: pairUp_*, buildJobs_accepted/_rejected, movedTo_retarget, finalMoves_other, jobs_good, storeOutcome_good/_rejected,
     storeWorld_good/_rejected
 -/
@@ -754,17 +756,14 @@ theorem pairUp_ok {S T R : Type} (s : List S) (t : List T) (r : RegionsArg R) (p
 
 /-! ### `store`: the build loop and the outcome -/
 
-/-- a pair that re-targets its (lazy) source in place -/
-def isMove (A : Arrays) (p : Pair) : Bool := !p.region && A.lazy p.src
-
 def finalMoves (A : Arrays) : List Pair → Moves → Moves
   | [], mv => mv
-  | p :: ps, mv => if isMove A p then finalMoves A ps (retarget mv p.src p.tgt) else finalMoves A ps mv
+  | p :: ps, mv => if isMoveAt A mv p then finalMoves A ps (retarget mv p.src p.tgt) else finalMoves A ps mv
 
 def jobsOf (A : Arrays) : List Pair → Moves → List Job
   | [], _ => []
   | p :: ps, mv =>
-    if isMove A p then .moved p.src p.tgt :: jobsOf A ps (retarget mv p.src p.tgt)
+    if isMoveAt A mv p then .moved p.src p.tgt :: jobsOf A ps (retarget mv p.src p.tgt)
     else .copy p.src (if A.lazy p.src then movedTo mv p.src else none) p.tgt :: jobsOf A ps mv
 
 theorem buildJobs_accepted (A : Arrays) (pairs : List Pair) (mv : Moves) (k : Nat)
@@ -777,14 +776,9 @@ theorem buildJobs_accepted (A : Arrays) (pairs : List Pair) (mv : Moves) (k : Na
     have hps : ∀ q ∈ ps, q.accepted = true := fun q hq => h q (by simp [hq])
     unfold buildJobs
     simp only [hp, Bool.not_true, Bool.false_eq_true, ↓reduceIte]
-    by_cases hm : isMove A p = true
-    · have hm' : (!p.region && A.lazy p.src) = true := hm
-      simp only [hm', ↓reduceIte, ih _ _ hps, jobsOf, finalMoves, hm]
-    · have hm' : (!p.region && A.lazy p.src) = false := by
-        have : isMove A p = false := by simpa using hm
-        exact this
-      have hm2 : isMove A p = false := hm'
-      simp only [hm', Bool.false_eq_true, ↓reduceIte, ih _ _ hps, jobsOf, finalMoves, hm2]
+    cases hm : isMoveAt A mv p with
+    | true => simp only [↓reduceIte, ih _ _ hps, jobsOf, finalMoves, hm]
+    | false => simp only [Bool.false_eq_true, ↓reduceIte, ih _ _ hps, jobsOf, finalMoves, hm]
 
 theorem buildJobs_rejected (A : Arrays) (pairs : List Pair) (mv : Moves) (k : Nat)
     (h : ∃ p ∈ pairs, p.accepted = false) : ∃ e, buildJobs A pairs mv k = .error e := by
@@ -833,18 +827,19 @@ theorem movedTo_retarget (mv : Moves) (a t b : Nat) :
     rw [find_filter_ne mv a b h]
 
 theorem finalMoves_other (A : Arrays) (pairs : List Pair) (mv : Moves) (a : Nat)
-    (h : ∀ p ∈ pairs, isMove A p = true → p.src ≠ a) :
+    (h : ∀ p ∈ pairs, p.src ≠ a) :
     movedTo (finalMoves A pairs mv) a = movedTo mv a := by
   induction pairs generalizing mv with
   | nil => rfl
   | cons p ps ih =>
-    have hps : ∀ q ∈ ps, isMove A q = true → q.src ≠ a := fun q hq => h q (by simp [hq])
+    have hps : ∀ q ∈ ps, q.src ≠ a := fun q hq => h q (by simp [hq])
     unfold finalMoves
-    by_cases hm : isMove A p = true
-    · simp only [hm, ↓reduceIte, ih _ hps, movedTo_retarget]
-      have := h p (by simp) hm
+    cases hm : isMoveAt A mv p with
+    | true =>
+      simp only [↓reduceIte, ih _ hps, movedTo_retarget]
+      have := h p (by simp)
       simp [Ne.symm this]
-    · simp only [hm, Bool.false_eq_true, ↓reduceIte, ih _ hps]
+    | false => simp only [Bool.false_eq_true, ↓reduceIte, ih _ hps]
 
 theorem depsIntact_of (A : Arrays) (final : Moves) (a : Nat)
     (h : ∀ d ∈ A.deps a, movedTo final d = none) : depsIntact A final a = true := by
@@ -855,7 +850,8 @@ theorem depsIntact_of (A : Arrays) (final : Moves) (a : Nat)
 
 theorem jobs_good (A : Arrays) (pairs : List Pair) (mv : Moves)
     (h1 : lazyOnce A pairs = true)
-    (hd : ∀ p ∈ pairs, ∀ d ∈ A.deps p.src, movedTo mv d = none ∧ ∀ q ∈ pairs, q.src ≠ d) :
+    (hd : ∀ p ∈ pairs, ∀ d ∈ A.deps p.src, movedTo mv d = none ∧ ∀ q ∈ pairs, q.src ≠ d)
+    (hfresh : ∀ p ∈ pairs, movedTo mv p.src = none) :
     (jobsOf A pairs mv).any (jobStale A (finalMoves A pairs mv)) = false ∧
     (jobsOf A pairs mv).map (jobResult (finalMoves A pairs mv)) = pairs.map (fun _ => PairResult.written) := by
   induction pairs generalizing mv with
@@ -864,10 +860,10 @@ theorem jobs_good (A : Arrays) (pairs : List Pair) (mv : Moves)
     simp only [lazyOnce, Bool.and_eq_true, Bool.or_eq_true, Bool.not_eq_true'] at h1
     obtain ⟨hp1, hps1⟩ := h1
     have hpd := hd p (by simp)
-    by_cases hm : isMove A p = true
+    by_cases hm : isMoveAt A mv p = true
     · -- in-place re-targeting of a lazy source
       have hlazy : A.lazy p.src = true := by
-        simp only [isMove, Bool.and_eq_true] at hm; exact hm.2
+        simp only [isMoveAt, lazyNow, Bool.and_eq_true] at hm; exact hm.2.1
       have hnotin : ∀ q ∈ ps, q.src ≠ p.src := by
         rcases hp1 with h | h
         · simp [hlazy] at h
@@ -881,13 +877,17 @@ theorem jobs_good (A : Arrays) (pairs : List Pair) (mv : Moves)
         have hpd' : p.src ≠ d := hne p (by simp)
         refine ⟨?_, fun r hr => hne r (by simp [hr])⟩
         rw [movedTo_retarget]; simp [Ne.symm hpd', h0]
-      obtain ⟨ih1, ih2⟩ := ih (retarget mv p.src p.tgt) hps1 hd'
+      have hfresh' : ∀ q ∈ ps, movedTo (retarget mv p.src p.tgt) q.src = none := by
+        intro q hq
+        rw [movedTo_retarget]
+        simp [hnotin q hq, hfresh q (by simp [hq])]
+      obtain ⟨ih1, ih2⟩ := ih (retarget mv p.src p.tgt) hps1 hd' hfresh'
       have hfin_src : movedTo (finalMoves A ps (retarget mv p.src p.tgt)) p.src = some p.tgt := by
-        rw [finalMoves_other A ps _ p.src (fun q hq _ => hnotin q hq), movedTo_retarget]; simp
+        rw [finalMoves_other A ps _ p.src (fun q hq => hnotin q hq), movedTo_retarget]; simp
       have hfin_dep : ∀ d ∈ A.deps p.src, movedTo (finalMoves A ps (retarget mv p.src p.tgt)) d = none := by
         intro d hdd
         obtain ⟨h0, hne⟩ := hpd d hdd
-        rw [finalMoves_other A ps _ d (fun q hq _ => hne q (by simp [hq])), movedTo_retarget]
+        rw [finalMoves_other A ps _ d (fun q hq => hne q (by simp [hq])), movedTo_retarget]
         have : d ≠ p.src := fun e => hne p (by simp) e.symm
         simp [this, h0]
       simp only [jobsOf, finalMoves, hm, ↓reduceIte, List.any_cons, List.map_cons, jobStale, jobResult,
@@ -898,11 +898,11 @@ theorem jobs_good (A : Arrays) (pairs : List Pair) (mv : Moves)
         intro q hq d hdq
         obtain ⟨h0, hne⟩ := hd q (by simp [hq]) d hdq
         exact ⟨h0, fun r hr => hne r (by simp [hr])⟩
-      obtain ⟨ih1, ih2⟩ := ih mv hps1 hd'
+      obtain ⟨ih1, ih2⟩ := ih mv hps1 hd' (fun q hq => hfresh q (by simp [hq]))
       have hfin_dep : ∀ d ∈ A.deps p.src, movedTo (finalMoves A ps mv) d = none := by
         intro d hdd
         obtain ⟨h0, hne⟩ := hpd d hdd
-        rw [finalMoves_other A ps _ d (fun q hq _ => hne q (by simp [hq]))]
+        rw [finalMoves_other A ps _ d (fun q hq => hne q (by simp [hq]))]
         exact h0
       have hread : readOk A (finalMoves A ps mv) p.src (if A.lazy p.src = true then movedTo mv p.src else none)
           = true := by
@@ -916,8 +916,8 @@ theorem jobs_good (A : Arrays) (pairs : List Pair) (mv : Moves)
             · intro q hq
               have := List.all_eq_true.mp h q hq
               simpa using this
-          rw [finalMoves_other A ps _ p.src (fun q hq _ => hnotin q hq)]
-          simp
+          rw [finalMoves_other A ps _ p.src (fun q hq => hnotin q hq)]
+          simp [hfresh p (by simp)]
       simp only [jobsOf, finalMoves, hm, Bool.false_eq_true, ↓reduceIte, List.any_cons, List.map_cons, jobStale,
         jobResult, depsIntact_of A _ p.src hfin_dep, hread, ih1, ih2, Bool.not_true, Bool.or_self]
       simp
@@ -935,7 +935,7 @@ theorem storeOutcome_good (A : Arrays) (pairs : List Pair)
     have h2 := List.all_eq_true.mp h1 d hdd
     have h3 := List.all_eq_true.mp h2 q hq
     simpa using h3
-  obtain ⟨j1, j2⟩ := jobs_good A pairs [] hlazy hd
+  obtain ⟨j1, j2⟩ := jobs_good A pairs [] hlazy hd (fun _ _ => by simp [movedTo])
   unfold storeOutcome
   rw [buildJobs_accepted A pairs [] 0 hacc']
   simp only [j1, Bool.false_eq_true, ↓reduceIte, j2]
@@ -1090,5 +1090,379 @@ theorem cartesian_single {α : Type} (l : List α) : cartesian [l] = l.map (fun 
     simp only [cartesian, List.flatMap_cons, List.map_cons, List.map_nil, List.singleton_append, List.cons.injEq,
       true_and] at ih ⊢
     exact ih
+
+/-! ### the fixed region branch (accept / prepare / storeRegion) -/
+
+theorem clip_le (n : Nat) (v : Int) : clip n v ≤ n := by
+  unfold clip
+  split <;> omega
+
+theorem startOf_le (sl : PSlice) (n : Nat) : startOf sl n ≤ n := by
+  unfold startOf
+  split
+  · omega
+  · exact clip_le n _
+
+theorem stopOf_le (sl : PSlice) (n : Nat) : stopOf sl n ≤ n := by
+  unfold stopOf
+  split
+  · omega
+  · exact clip_le n _
+
+theorem startOf_some_nat (k : Nat) (e st : Option Int) (n : Nat) : startOf ⟨some (k : Nat), e, st⟩ n = min k n := by
+  simp [startOf, clip_nonneg]
+
+theorem stopOf_some_nat (k : Nat) (s st : Option Int) (n : Nat) : stopOf ⟨s, some (k : Nat), st⟩ n = min k n := by
+  simp [stopOf, clip_nonneg]
+
+theorem normalizeAxis_bounds (a : Axis) :
+    startOf (normalizeAxis a).sl a.n = startOf a.sl a.n ∧ stopOf (normalizeAxis a).sl a.n = stopOf a.sl a.n := by
+  have h1 := startOf_le a.sl a.n
+  have h2 := stopOf_le a.sl a.n
+  unfold normalizeAxis
+  rw [startOf_some_nat, stopOf_some_nat]
+  constructor <;> omega
+
+theorem accept_single (a : Axis) (h : accept [a] = .ok) :
+    stepOne a = true ∧ misaligned (normalizeAxis a) = false ∧ shapeMismatchAxis a = false := by
+  unfold accept at h
+  simp only [List.any_cons, List.any_nil, Bool.or_false] at h
+  cases h1 : stepBad a with
+  | true => simp [h1] at h
+  | false =>
+    cases h2 : misaligned (normalizeAxis a) with
+    | true => simp [h1, h2] at h
+    | false =>
+      cases h3 : shapeMismatchAxis a with
+      | true => simp [h1, h2, h3] at h
+      | false =>
+        refine ⟨?_, rfl, rfl⟩
+        simpa [stepBad] using h1
+
+theorem accept_each (axes : List Axis) (hv : accept axes = .ok) : ∀ a ∈ axes, accept [a] = .ok := by
+  intro a ha
+  unfold accept at hv
+  cases h1 : axes.any stepBad with
+  | true => simp [h1] at hv
+  | false =>
+    cases h2 : axes.any (fun a => misaligned (normalizeAxis a)) with
+    | true => simp [h1, h2] at hv
+    | false =>
+      cases h3 : axes.any shapeMismatchAxis with
+      | true => simp [h1, h2, h3] at hv
+      | false =>
+        have e1 : stepBad a = false := by
+          cases h : stepBad a with
+          | false => rfl
+          | true => rw [List.any_eq_true.mpr ⟨a, ha, h⟩] at h1; cases h1
+        have e2 : misaligned (normalizeAxis a) = false := by
+          cases h : misaligned (normalizeAxis a) with
+          | false => rfl
+          | true => rw [List.any_eq_true.mpr ⟨a, ha, h⟩] at h2; cases h2
+        have e3 : shapeMismatchAxis a = false := by
+          cases h : shapeMismatchAxis a with
+          | false => rfl
+          | true => rw [List.any_eq_true.mpr ⟨a, ha, h⟩] at h3; cases h3
+        simp [accept, e1, e2, e3]
+
+/-- normal form of a request accepted by the fixed code -/
+theorem accept_normal (a : Axis) (h : accept [a] = .ok) :
+    normalize a.sl a.n = some ⟨startOf a.sl a.n, stopOf a.sl a.n, 1⟩ ∧
+    startOf a.sl a.n % a.cs = 0 ∧ (stopOf a.sl a.n % a.cs = 0 ∨ stopOf a.sl a.n = a.n) ∧
+    a.m = stopOf a.sl a.n - startOf a.sl a.n := by
+  obtain ⟨h1, h2, h3⟩ := accept_single a h
+  have hstep := stepOne_stepOf a h1
+  have hnorm : normalize a.sl a.n = some ⟨startOf a.sl a.n, stopOf a.sl a.n, 1⟩ := by
+    simp [normalize, hstep]
+  refine ⟨hnorm, ?_⟩
+  simp only [misaligned, normalizeAxis, Bool.or_eq_false_iff] at h2
+  obtain ⟨ha, hb⟩ := h2
+  have ha' : ((startOf a.sl a.n : Nat) : Int) % (a.cs : Int) = 0 := by simpa using ha
+  have hs : startOf a.sl a.n % a.cs = 0 := by exact_mod_cast ha'
+  have he : stopOf a.sl a.n % a.cs = 0 ∨ stopOf a.sl a.n = a.n := by
+    by_cases hk : stopOf a.sl a.n = a.n
+    · exact Or.inr hk
+    · left
+      have hk' : ((stopOf a.sl a.n : Nat) : Int) ≠ (a.n : Int) := by omega
+      have : ((stopOf a.sl a.n : Nat) : Int) % (a.cs : Int) = 0 := by simpa [hk'] using hb
+      exact_mod_cast this
+  refine ⟨hs, he, ?_⟩
+  unfold shapeMismatchAxis at h3
+  rw [hnorm] at h3
+  simp only [Norm.nitems] at h3
+  have : a.m = if stopOf a.sl a.n ≤ startOf a.sl a.n then 0
+      else (stopOf a.sl a.n - startOf a.sl a.n + 1 - 1) / 1 := by simpa using h3
+  split at this
+  · omega
+  · simp at this; omega
+
+/-- the prepared axis of an accepted request with a non-empty source satisfies every hypothesis of the old
+partial theorem -/
+theorem prepare1_good (a : Axis) (hcs : 0 < a.cs) (h : accept [a] = .ok) (hm : 0 < a.m) : Good (prepare1 a) := by
+  obtain ⟨hnorm, hs, he, hmm⟩ := accept_normal a h
+  obtain ⟨_, h2, _⟩ := accept_single a h
+  obtain ⟨b1, b2⟩ := normalizeAxis_bounds a
+  have hp : prepare1 a = { normalizeAxis a with sc := min a.cs a.m } := by simp [prepare1, hm]
+  have hsl : (prepare1 a).sl = ⟨some (startOf a.sl a.n : Nat), some (stopOf a.sl a.n : Nat), none⟩ := by
+    rw [hp]; rfl
+  have hn : (prepare1 a).n = a.n := by rw [hp]; rfl
+  have hc : (prepare1 a).cs = a.cs := by rw [hp]; rfl
+  have hmm' : (prepare1 a).m = a.m := by rw [hp]; rfl
+  have hsc : (prepare1 a).sc = min a.cs a.m := by rw [hp]
+  have hstart : startOf (prepare1 a).sl a.n = startOf a.sl a.n := by rw [hsl]; exact b1
+  have hstop : stopOf (prepare1 a).sl a.n = stopOf a.sl a.n := by rw [hsl]; exact b2
+  refine ⟨by rw [hc]; exact hcs, by rw [hsc]; omega, by simp [stepOne, hsl], by simp [nonNegBounds, hsl], ?_, ?_⟩
+  · simp only [chunksAgree, hsc, hc, hmm', Bool.or_eq_true, beq_iff_eq, Bool.and_eq_true, decide_eq_true_eq]
+    omega
+  · have hmis : misaligned (prepare1 a) = false := by
+      rw [← h2]; simp only [misaligned, hp, normalizeAxis]
+    have hnm : normalize (prepare1 a).sl (prepare1 a).n = some ⟨startOf a.sl a.n, stopOf a.sl a.n, 1⟩ := by
+      rw [hn]
+      have : stepOf (prepare1 a).sl = 1 := by simp [stepOf, hsl]
+      simp [normalize, this, hstart, hstop]
+    simp only [validate, List.any_cons, List.any_nil, Bool.or_false, hmis, Bool.false_eq_true, ↓reduceIte,
+      badStepAxis, hnm, Option.isNone_some, shapeMismatchAxis, hmm']
+    have : (a.m != Norm.nitems ⟨startOf a.sl a.n, stopOf a.sl a.n, 1⟩) = false := by
+      simp only [Norm.nitems]
+      split <;> simp <;> omega
+    simp [this]
+
+theorem prepare1_bounds (a : Axis) :
+    (prepare1 a).n = a.n ∧ startOf (prepare1 a).sl (prepare1 a).n = startOf a.sl a.n ∧
+    stopOf (prepare1 a).sl (prepare1 a).n = stopOf a.sl a.n := by
+  obtain ⟨b1, b2⟩ := normalizeAxis_bounds a
+  unfold prepare1
+  split
+  · exact ⟨rfl, b1, b2⟩
+  · exact ⟨rfl, b1, b2⟩
+
+/-- an accepted request with an empty source has no output block -/
+theorem prepare1_empty (a : Axis) (h : accept [a] = .ok) (hm : a.m = 0) : axisBlocks (prepare1 a) = [] := by
+  obtain ⟨_, _, _, hmm⟩ := accept_normal a h
+  obtain ⟨hn, hs, he⟩ := prepare1_bounds a
+  have hsl : (prepare1 a).sl.step = none := by
+    unfold prepare1; split <;> rfl
+  have hnm : normalize (prepare1 a).sl (prepare1 a).n = some ⟨startOf a.sl a.n, stopOf a.sl a.n, 1⟩ := by
+    have : stepOf (prepare1 a).sl = 1 := by simp [stepOf, hsl]
+    simp [normalize, this, hs, he]
+  simp only [axisBlocks, hnm, hitBlocks]
+  have : stopOf a.sl a.n ≤ startOf a.sl a.n := by omega
+  simp [this]
+
+/-- The fixed code, one axis: every accepted request is written exactly. -/
+theorem storeAxis_correct (a : Axis) (hcs : 0 < a.cs) (h : accept [a] = .ok) :
+    (storeAxis a).err = none ∧
+    ∀ i j, (i, j) ∈ (storeAxis a).written ↔
+      (startOf a.sl a.n ≤ i ∧ i < stopOf a.sl a.n ∧ j = i - startOf a.sl a.n) := by
+  obtain ⟨hn, hs, he⟩ := prepare1_bounds a
+  by_cases hm : 0 < a.m
+  · have g := prepare1_good a hcs h hm
+    obtain ⟨herr, hchar⟩ := runAxis_good (prepare1 a) g
+    rw [hs, he] at hchar
+    exact ⟨herr, hchar⟩
+  · have hm0 : a.m = 0 := by omega
+    have hb := prepare1_empty a h hm0
+    obtain ⟨_, _, _, hmm⟩ := accept_normal a h
+    unfold storeAxis runAxis
+    rw [hb]
+    refine ⟨rfl, fun i j => ?_⟩
+    simp [runTasks]
+    omega
+
+theorem storeAxis_values (a : Axis) (hcs : 0 < a.cs) (h : accept [a] = .ok) {V : Type} (src tgt : Nat → V) (i : Nat) :
+    applyPairs src (storeAxis a).written tgt i =
+      expectedAxis ⟨startOf a.sl a.n, stopOf a.sl a.n, 1⟩ src tgt i := by
+  obtain ⟨_, hchar⟩ := storeAxis_correct a hcs h
+  unfold expectedAxis
+  simp only [Nat.mod_one, Nat.div_one, and_true]
+  by_cases hin : startOf a.sl a.n ≤ i ∧ i < stopOf a.sl a.n
+  · simp only [hin, and_self, ↓reduceIte]
+    apply applyPairs_of_mem src (fun i => i - startOf a.sl a.n)
+    · intro p hp
+      exact ((hchar p.1 p.2).mp hp).2.2
+    · exact ⟨(i, i - startOf a.sl a.n), (hchar _ _).mpr ⟨hin.1, hin.2, rfl⟩, rfl⟩
+  · simp only [hin, ↓reduceIte]
+    apply applyPairs_of_not_mem
+    intro p hp heq
+    have := (hchar p.1 p.2).mp hp
+    rw [heq] at this
+    exact hin ⟨this.1, this.2.1⟩
+
+/-! ### the fixed region branch, n-D -/
+
+theorem prepare_all_pos (axes : List Axis) (h : ∀ a ∈ axes, 0 < a.m) : prepare axes = axes.map prepare1 := by
+  unfold prepare rechunkToTarget
+  have hall : (axes.map normalizeAxis).all (fun a => decide (0 < a.m)) = true := by
+    apply List.all_eq_true.mpr
+    intro a ha
+    obtain ⟨b, hb, rfl⟩ := List.mem_map.mp ha
+    have := h b hb
+    show decide (0 < b.m) = true
+    exact decide_eq_true this
+  simp only [hall, ↓reduceIte, List.map_map]
+  apply List.map_congr_left
+  intro a ha
+  simp [prepare1, h a ha, normalizeAxis]
+
+theorem prepare_some_zero (axes : List Axis) (h : ∃ a ∈ axes, a.m = 0) : prepare axes = axes.map normalizeAxis := by
+  unfold prepare rechunkToTarget
+  obtain ⟨a, ha, hm⟩ := h
+  have hall : (axes.map normalizeAxis).all (fun a => decide (0 < a.m)) = false := by
+    apply List.all_eq_false.mpr
+    exact ⟨normalizeAxis a, List.mem_map.mpr ⟨a, ha, rfl⟩, by simp [normalizeAxis, hm]⟩
+  simp [hall]
+
+theorem inRegion_congr (f : Axis → Axis)
+    (hf : ∀ a, (f a).n = a.n ∧ startOf (f a).sl (f a).n = startOf a.sl a.n ∧ stopOf (f a).sl (f a).n = stopOf a.sl a.n)
+    (axes : List Axis) (is js : List Nat) : InRegion (axes.map f) is js ↔ InRegion axes is js := by
+  induction axes generalizing is js with
+  | nil => cases is <;> cases js <;> simp [InRegion]
+  | cons a as ih =>
+    cases is with
+    | nil => cases js <;> simp [InRegion]
+    | cons i is =>
+      cases js with
+      | nil => simp [InRegion]
+      | cons j js =>
+        obtain ⟨h1, h2, h3⟩ := hf a
+        simp only [List.map_cons, InRegion, h2, h3, ih]
+
+theorem inRegion_false (axes : List Axis) (a0 : Axis) (h0 : a0 ∈ axes)
+    (he : stopOf a0.sl a0.n ≤ startOf a0.sl a0.n) (is js : List Nat) : ¬ InRegion axes is js := by
+  induction axes generalizing is js with
+  | nil => simp at h0
+  | cons a as ih =>
+    cases is with
+    | nil => cases js <;> simp [InRegion]
+    | cons i is =>
+      cases js with
+      | nil => simp [InRegion]
+      | cons j js =>
+        simp only [InRegion]
+        rcases List.mem_cons.mp h0 with rfl | h
+        · intro hh; omega
+        · intro hh; exact ih h is js hh.2
+
+theorem cartesian_eq_nil {α : Type} (ls : List (List α)) (h : [] ∈ ls) : cartesian ls = [] := by
+  induction ls with
+  | nil => simp at h
+  | cons l ls ih =>
+    rcases List.mem_cons.mp h with h1 | h1
+    · subst h1; simp [cartesian]
+    · simp [cartesian, ih h1]
+
+theorem normalizeAxis_facts (a : Axis) :
+    (normalizeAxis a).n = a.n ∧ startOf (normalizeAxis a).sl (normalizeAxis a).n = startOf a.sl a.n ∧
+    stopOf (normalizeAxis a).sl (normalizeAxis a).n = stopOf a.sl a.n :=
+  ⟨rfl, (normalizeAxis_bounds a).1, (normalizeAxis_bounds a).2⟩
+
+/-- The fixed code, n-D: every accepted request runs without error and writes exactly the product region. -/
+theorem storeRegion_correct (axes : List Axis) (hcs : ∀ a ∈ axes, 0 < a.cs) (h : accept axes = .ok) :
+    (storeRegion axes).err = none ∧
+    ∀ is js, (is, js) ∈ (storeRegion axes).written ↔ InRegion axes is js := by
+  have hea := accept_each axes h
+  by_cases hpos : ∀ a ∈ axes, 0 < a.m
+  · have hp := prepare_all_pos axes hpos
+    have hg : ∀ a' ∈ axes.map prepare1, Good a' := by
+      intro a' ha'
+      obtain ⟨a, ha, rfl⟩ := List.mem_map.mp ha'
+      exact prepare1_good a (hcs a ha) (hea a ha) (hpos a ha)
+    obtain ⟨herr, hchar⟩ := runRegion_good (axes.map prepare1) hg
+    unfold storeRegion
+    rw [hp]
+    refine ⟨herr, fun is js => ?_⟩
+    rw [hchar, inRegion_congr prepare1 prepare1_bounds]
+  · have hz : ∃ a ∈ axes, a.m = 0 := by
+      apply Classical.byContradiction
+      intro hne
+      apply hpos
+      intro a ha
+      have : a.m ≠ 0 := fun e => hne ⟨a, ha, e⟩
+      omega
+    have hp := prepare_some_zero axes hz
+    obtain ⟨a0, ha0, hm0⟩ := hz
+    have hb : axisBlocks (normalizeAxis a0) = [] := by
+      have := prepare1_empty a0 (hea a0 ha0) hm0
+      simpa [prepare1, hm0] using this
+    have hout : outputBlocks (axes.map normalizeAxis) = [] := by
+      unfold outputBlocks
+      apply cartesian_eq_nil
+      rw [List.map_map]
+      exact List.mem_map.mpr ⟨a0, ha0, by simpa using hb⟩
+    obtain ⟨_, _, _, hmm⟩ := accept_normal a0 (hea a0 ha0)
+    unfold storeRegion runRegion
+    rw [hp, hout]
+    refine ⟨rfl, fun is js => ?_⟩
+    have := inRegion_false axes a0 ha0 (by omega) is js
+    simp [runTasks, this]
+
+theorem storeRegion_values (axes : List Axis) (hcs : ∀ a ∈ axes, 0 < a.cs) (h : accept axes = .ok) {V : Type}
+    (src tgt : List Nat → V) (is : List Nat) :
+    (∀ js, InRegion axes is js → applyPairs src (storeRegion axes).written tgt is = src js) ∧
+    ((∀ js, ¬ InRegion axes is js) → applyPairs src (storeRegion axes).written tgt is = tgt is) := by
+  obtain ⟨_, hchar⟩ := storeRegion_correct axes hcs h
+  constructor
+  · intro js hin
+    have hj := inRegion_src axes is js hin
+    rw [hj]
+    apply applyPairs_of_mem src (srcIndex axes)
+    · intro p hp
+      exact inRegion_src axes p.1 p.2 ((hchar p.1 p.2).mp hp)
+    · exact ⟨(is, js), (hchar is js).mpr hin, rfl⟩
+  · intro hout
+    apply applyPairs_of_not_mem
+    intro p hp heq
+    have := (hchar p.1 p.2).mp hp
+    rw [heq] at this
+    exact hout p.2 this
+
+theorem prepare_single (a : Axis) : prepare [a] = [prepare1 a] := by
+  by_cases hm : 0 < a.m
+  · rw [prepare_all_pos [a] (by simpa using hm)]; rfl
+  · have hm0 : a.m = 0 := by omega
+    rw [prepare_some_zero [a] ⟨a, by simp, hm0⟩]
+    simp [prepare1, hm0]
+
+/-- declared task count = tasks run, for every accepted request with a non-empty source -/
+theorem storeAxis_declared (a : Axis) (hcs : 0 < a.cs) (h : accept [a] = .ok) (hm : 0 < a.m) :
+    declaredTasks (prepare [a]) = (outputBlocks (prepare [a])).length := by
+  rw [prepare_single]
+  have := declared_eq_blocks (prepare1 a) (prepare1_good a hcs h hm)
+    (by have : (prepare1 a).m = a.m := by unfold prepare1; split <;> rfl
+        omega)
+  simp [declaredTasks, outputBlocks, cartesian_single, this]
+
+/-! ### the fixed no-region branch -/
+
+theorem copyChunk_pos (m sc tc : Nat) (hsc : 0 < sc) (htc : 0 < tc) : 0 < copyChunk m sc tc := by
+  unfold copyChunk
+  split <;> assumption
+
+theorem chunksTouched_beyond (m sc tc b : Nat) (hb : 1 ≤ b) (hm : m ≤ sc) : chunksTouched m sc tc b = [] := by
+  unfold chunksTouched
+  have : sc ≤ b * sc := Nat.le_mul_of_pos_left sc hb
+  have h : min ((b + 1) * sc) m ≤ b * sc := by omega
+  simp [h]
+
+theorem storeCopy_chunks_private (m sc tc b1 b2 : Nat) (htc : 0 < tc) (hne : b1 ≠ b2) :
+    ∀ c ∈ chunksTouched m (copyChunk m sc tc) tc b1, c ∉ chunksTouched m (copyChunk m sc tc) tc b2 := by
+  unfold copyChunk
+  by_cases h1 : sc % tc = 0
+  · have hr : sc = (sc / tc) * tc := by
+      have := Nat.div_add_mod sc tc
+      rw [h1, Nat.mul_comm] at this; omega
+    simp only [h1, beq_self_eq_true, Bool.true_or, ↓reduceIte]
+    exact chunksTouched_disjoint m sc tc (sc / tc) b1 b2 htc hr hne
+  · by_cases h2 : m ≤ sc
+    · have hc : (sc % tc == 0 || decide (m ≤ sc)) = true := by simp [h2]
+      simp only [hc, ↓reduceIte]
+      intro c hc1 hc2
+      by_cases hb1 : 1 ≤ b1
+      · rw [chunksTouched_beyond m sc tc b1 hb1 h2] at hc1; simp at hc1
+      · have hb2 : 1 ≤ b2 := by omega
+        rw [chunksTouched_beyond m sc tc b2 hb2 h2] at hc2; simp at hc2
+    · have hc : (sc % tc == 0 || decide (m ≤ sc)) = false := by simp [h1, h2]
+      simp only [hc, Bool.false_eq_true, ↓reduceIte]
+      exact chunksTouched_disjoint m tc tc 1 b1 b2 htc (by simp) hne
 
 end Cubed.StoreSem
